@@ -23,7 +23,7 @@ def opt_cases(r, n_random, exhaustive_upto=0, stride_all=False):
             for s in SZX:
                 out.append("blkopt %d %d %d" % (num, m, s))
     if stride_all:
-        for num in range(0, 1 << 20, stride_all):
+        for num in range(0, 1 << 20, int(stride_all)):
             h = (num * 2654435761) >> 7
             out.append("blkopt %d %d %d" % (num, h & 1, (h >> 1) % 7))
     for _ in range(n_random):
@@ -357,4 +357,19 @@ def e2e_slow(r, n):
             sched += "x" * r.choice([3, 4, 4, 4]) + ".."
         d = "b1s" if i % 2 == 0 else "b2s"
         out.append(e2e_line(d, ln, r.randrange(250), 0, s, 7, 7, r.randrange(2), r.randrange(2), 0, sched))
+    return out
+
+
+def e2e_all_lengths(r, hi, szxs):
+    """every body length 0..hi for the given block sizes, no loss, both directions"""
+    out = []
+    i = 0
+    for s in szxs:
+        for ln in range(0, hi + 1):
+            i += 1
+            d = "b1" if i % 2 else "b2"
+            out.append(e2e_line(d, ln, (ln * 7 + s) % 250, i % 4 // 2, s, 7, 7, 1, 1, 0))
+            if ln % 16 in (0, 1, 15):
+                out.append(e2e_line("b2" if d == "b1" else "b1", ln, (ln * 5 + s) % 250, (i + 1) % 2,
+                                    7, s, 7, i % 2, i % 2, 0))
     return out
